@@ -31,7 +31,9 @@ Forest ==
      \* two properties the database does not know: the reader has to take their types from the wire type
      [class |-> "Folder", name |-> <<82, 111, 111, 116>>, parent |-> 0, kids |-> <<2, 3, 4, 5, 6>>,
         props |-> << <<"VerifForeignF32", [t |-> "Float32", v |-> <<63, 192, 0, 0>>]>>,
-                     <<"VerifForeignI32", [t |-> "Int32", v |-> <<255, 255, 255, 249>>]>> >>],
+                     <<"VerifForeignI32", [t |-> "Int32", v |-> <<255, 255, 255, 249>>]>>,
+                     \* three distinct shared strings in the file (SSTR indices 0, 1, 2 in first-use order)
+                     <<"VerifForeignShared", [t |-> "SharedString", v |-> <<9>>]>> >>],
      [class |-> "IntValue", name |-> <<73>>, parent |-> 1, kids |-> <<>>,
         props |-> << <<"Value", [t |-> "Int64", v |-> <<0, 0, 0, 0, 119, 53, 148, 0>>]>> >>],           \* 2 000 000 000
      [class |-> "IntValue", name |-> <<74>>, parent |-> 1, kids |-> <<>>,
@@ -40,9 +42,9 @@ Forest ==
         \* 0.1f32 widened exactly (0.10000000149011612): exact in Float32, but not the shortest decimal of 0.1
         props |-> << <<"Value", [t |-> "Float64", v |-> <<63, 185, 153, 153, 160, 0, 0, 0>>]>> >>],
      [class |-> "ObjectValue", name |-> <<79>>, parent |-> 1, kids |-> <<>>,
-        props |-> << <<"Value", [t |-> "Ref", v |-> 3]>> >>],
+        props |-> << <<"Value", [t |-> "Ref", v |-> 3]>>, <<"VerifForeignShared", [t |-> "SharedString", v |-> <<1, 2, 3>>]>> >>],
      [class |-> "ObjectValue", name |-> <<81>>, parent |-> 1, kids |-> <<>>,
-        props |-> << <<"Value", [t |-> "Ref", v |-> 0]>> >>],
+        props |-> << <<"Value", [t |-> "Ref", v |-> 0]>>, <<"VerifForeignShared", [t |-> "SharedString", v |-> <<4, 5>>]>> >>],
      [class |-> "Workspace", name |-> <<87>>, parent |-> 0, kids |-> <<8>>,
         props |-> << <<"Gravity", [t |-> "Float32", v |-> <<67, 68, 51, 51>>]>> >>],
      [class |-> "Part", name |-> <<80>>, parent |-> 7, kids |-> <<>>,
@@ -144,12 +146,17 @@ WithEmptyClass(ch, e) ==
          IN SubSeq(ch, 1, p) \o <<[k |-> "INST", class |-> NC]>> \o SubSeq(ch, p + 1, Len(ch))
             \o (IF e = "inst+prop" THEN <<[k |-> "PROP", class |-> NC, prop |-> "Name"]>> ELSE <<>>)
 
+\* the shared-string table precedes the first INST chunk (docs/binary.md, file structure)
+WithSstr(ch) ==
+    LET p == CHOOSE j \in 1..Len(ch) : ch[j].k = "INST" /\ \A i \in 1..(j - 1) : ch[i].k # "INST"
+    IN SubSeq(ch, 1, p - 1) \o <<[k |-> "SSTR"]>> \o SubSeq(ch, p, Len(ch))
+
 Case(ids, refs, co, layout, prnt, narrowI, narrowF, extra, opt, service, methods, empty) ==
     [forest |-> Forest, expect |-> Expect,
      classes |-> [i \in 1..NC |-> [name |-> ClassNames[i], id |-> ids[i], service |-> (service /\ IsService(ClassNames[i]))]]
                  \o (IF empty = "none" THEN <<>> ELSE <<[name |-> "Decal", id |-> EmptyClassId, service |-> FALSE]>>),
      referents |-> refs,
-     chunks |-> WithEmptyClass(WithOptional(WithExtras(Body(co, IF extra = "none" THEN layout ELSE "grouped", narrowI, narrowF), extra), opt), empty),
+     chunks |-> WithSstr(WithEmptyClass(WithOptional(WithExtras(Body(co, IF extra = "none" THEN layout ELSE "grouped", narrowI, narrowF), extra), opt), empty)),
      prnt |-> prnt,
      methods |-> methods]
 
